@@ -455,6 +455,19 @@ func (w *streamingResponseWriter) WriteHeader(status int) {
 
 	// Initialize the response trailers.
 	w.trailer = make(http.Header)
+	if announced := w.Header().Values("Trailer"); len(announced) > 0 {
+		// A single Trailer field may announce several names ("Trailer: A, B"),
+		// which is how httputil.ReverseProxy forwards them.
+		var names []string
+		for _, field := range announced {
+			for _, name := range strings.Split(field, ",") {
+				if name = strings.TrimSpace(name); name != "" {
+					names = append(names, name)
+				}
+			}
+		}
+		w.Header()["Trailer"] = names
+	}
 	for _, k := range w.Header().Values("Trailer") {
 		// Initialize trailers with empty slices for any pre-declared values.
 		//
